@@ -67,16 +67,24 @@ def run_case(cs):
         f.createDimension('POINTS', st['nrec'])
         # the independent variable is often stored narrower than the data
         # (whole seconds as integers, single precision)
-        tv = f.createVariable(indep, cs.get('tdtype', 'd'), ('POINTS',))
-        tv[:] = cs['t']
-        tv.units = cs['tunit']
+        # (cs['tpos']: it need not be the first variable of the file)
+        tpos = min(cs.get('tpos', 0), st['nv'])
+
+        def mkindep():
+            tv = f.createVariable(indep, cs.get('tdtype', 'd'), ('POINTS',))
+            tv[:] = cs['t']
+            tv.units = cs['tunit']
         for i in range(st['nv']):
+            if i == tpos:
+                mkindep()
             d = cs['vars'][i]
             v = f.createVariable(d['name'], d.get('dtype', 'd'), ('POINTS',),
                                  fill_value=d['missing'])
             v[:] = np.ma.masked_array(d['vals'], mask=d['mask'])
             v.units = d['unit']
             v.missing_value = d['missing']
+        if tpos >= st['nv']:
+            mkindep()
         f.SDATE = '2012, 05, 17'
         f.WDATE = '2012, 06, 01'
         f.TIME_INTERVAL = '1'
@@ -208,6 +216,7 @@ def gen_case(rnd, st):
             'tunit': rnd.choice(['seconds', 's']), 'vars': vars_,
             'indep': indep,
             'tdtype': rnd.choice(['d', 'd', 'i', 'f', 'l']),
+            'tpos': rnd.choice([0, 0, 1, 2, 99]),
             'atts': atts,
             # scale factors of the dependent variables for the scaled-text
             # stage (half of the cases)
